@@ -497,6 +497,25 @@ def fs_reference(hist, impl):
                         continue
                     if tree.get(q) != after.get(q):
                         bad = "failed Directory::unlink changed an entry outside the tree"
+        if not bad and op == "fspurge":
+            rr = py_resolve(tree, unhx(t[1]), False)
+            P = rr[1] if rr[0] == "found" else None
+            gone = set(tree) - set(after)
+            if set(after) - set(tree) or any(after[q] != tree[q] for q in after):
+                bad = "Directory::purge added or changed an entry"
+            elif r0 == "1" and (P is None or any(q == P or q.startswith(P + "/") for q in after)):
+                bad = "Directory::purge reported success but the tree is still there"
+            elif P is not None and any(not (q == P or q.startswith(P + "/") or (P.startswith(q + "/") and tree[q][0] == "d")) for q in gone):
+                bad = "Directory::purge removed something that is neither in the tree nor an (empty) parent directory"
+            elif P is None and gone:
+                bad = "failed Directory::purge removed entries"
+            elif any(P is not None and P.startswith(q + "/") and any(x.startswith(q + "/") for x in after) for q in gone):
+                bad = "Directory::purge removed a parent that is not empty"
+        if not bad and op == "fsabspath":
+            pth = unhx(t[1])
+            want = hx(pth if ref_abs(pth) == "1" else "/s/" + pth)
+            if res != want or after != tree:
+                bad = f"getAbsolutePath: expected {want}"
         if not bad and op == "fsunlink":
             rr = py_resolve(tree, unhx(t[1]), False)
             if r0 == "1":
@@ -647,6 +666,11 @@ def fs_random_history(rng, n):
             h.append(f"fsreadall {hx(fs_path(rng, allow_out_final=True))}")
         elif k < 0.80:
             h.append(f"fsls {hx(fs_path(rng, rng.choice(DIRN + ['i', 'l', '.'])))}")
+        elif k < 0.83:
+            pp = "/".join(rng.choice(DIRN + ["i"]) for _ in range(rng.choice([1, 2, 2, 3])))
+            h.append(f"fspurge {hx(pp)} {rng.choice('011')}")
+        elif k < 0.85:
+            h.append(f"fsabspath {hx(rand_path(rng, 3))}")
         elif k < 0.95:
             h.append(f"fsfile {hx(fs_path(rng, rng.choice(FILEN + FILEN + ['h', 'a'])))} {rng.choice([1, 2, 3, 6, 7, 10, 11, 2, 3, 6, 0, 4])} {rand_script(rng)}")
         else:
@@ -666,6 +690,10 @@ FS_SMALL = [f"fscreate {hx(p)}" for p in ["a", "a/f", "a/f/x", "c/b/a", "a/l", "
            [f"fscopyf {hx('a/f')} {hx(b)} {f} {m}" for b in ["a/h", "a/b/g"] for f in "01" for m in "01"] + \
            [f"fsfile {hx('a/f')} {fl} {sc}" for fl in (1, 2, 3, 6, 7, 10) for sc in ("w5859,r", "s2:-2,w41,s0:0,r", "s0:8,w42,z")] + \
            [f"fsfile {hx('a/h')} {fl} w4142,s0:0,r" for fl in (1, 2, 3, 6, 10, 11)] + \
+           [f"fspurge {hx(p)} {r}" for p in ["a/b", "a", "c/b/a", "a/f", "i/b", "a/l"] for r in "01"] + \
+           [f"fsabspath {hx(p)}" for p in ["a", "", "/x", "\\x", "c:/x", "c:x", "../a", "a/"]] + \
+           [f"fsfile {hx('a/f')} {fl} {sc}" for fl in (3, 7) for sc in ("s0:9,r,z,s1:0", "s0:9,w41,s0:0,r,z", "s2:3,z,r,w42,s0:0,r", "s0:1,w5a,s2:0,w59,s0:0,r", "r,r,z,s1:-2,r")] + \
+           [f"fsfile {hx('a/f')} 6 s0:1,w5a,w59,z"] + \
            [f"fsexists {hx(p)}" for p in ["a/l", "a/b/m", "n", "a/f", "zz", "i", "i/f"]] + \
            [f"fsreadall {hx(p)}" for p in ["a/f", "a/b/m", "a", "n", "i/f"]] + [f"fsls {hx(p)}" for p in ["a", "a/l", "i", "", "a/f"]]
 
